@@ -303,6 +303,13 @@ func cmdCheck(args []string) {
 	}
 	// pass 2: infer loop invariants and solve, for the relevant functions only
 	opts.Only = want
+	opts.NoSecond = map[string]bool{}
+	for _, le := range lists.undecided {
+		opts.NoSecond[le.name] = true
+	}
+	for _, le := range lists.known {
+		opts.NoSecond[le.name] = true
+	}
 	encs := encodeAndSolve(p, fns, opts, stats)
 	assignProps2(p, pre, encs)
 
@@ -376,7 +383,7 @@ func assignProps2(p *Prog, pre, encs []*Enc) {
 				ob.Support = support[ob.Name]
 				continue
 			}
-			if ob.Kind == "cand" {
+			if ob.Kind == "cand" || ob.Kind == "variant-cand" {
 				ob.Props = nil
 				for pr := range fnProps[e.name] {
 					ob.Props = append(ob.Props, pr)
